@@ -987,7 +987,7 @@ pub fn run() {
   run.set("hit_policy_tables", json!(b.len()));
   run.set("matching_tables", json!(a.len()));
   run.set("unspecified_not_compared", json!(cnt.unspec.load(Ordering::Relaxed)));
-  run.assume("reference hit-policy table and entry predicates in engines/c03.rs; `-` on a null input, not(..) on a value of another kind, PRIORITY / OUTPUT ORDER without output values, aggregators over several output clauses and partially defined defaults are left unspecified");
+  run.assume("reference hit-policy table and entry predicates in engines/c03.rs; `-` on a null input, not(..) on a value of another kind, PRIORITY / OUTPUT ORDER without output values, aggregators over several output clauses, MIN / MAX over outputs of mixed kinds and partially defined defaults are left unspecified");
   run.finish();
 }
 
